@@ -54,7 +54,8 @@ static bool is_reinit(int op) { return op <= OP_VERIFY; }
 static bool is_verifylike(int op) { return op >= OP_TOSTR_NULL && op <= OP_PRINT; }
 
 /* what an application knows about where it is: the containers it entered */
-typedef struct { int8_t unknown, sp, fresh; int8_t st[9]; } shadow;
+typedef struct { int8_t unknown, sp, fresh; int8_t st[9]; int8_t kind; /* what the object was last initialised as: 0 object, 1 array (the application knows; the private type field is not consulted) */ } shadow;
+static inline void sh_clear(shadow *sh) { int8_t k = sh->kind; memset(sh, 0, sizeof *sh); sh->kind = k; }
 
 static vf_live L;
 static int MD, FILL, KIND0;                 /* current configuration */
@@ -266,7 +267,8 @@ static bool do_op(shadow *sh, int op, mismatch *mm, bool counting)
     size_t used0 = p->buffer_used;
     binson_type type0 = BINSON_TYPE_NONE;
     if (!err0 && p->current_state) type0 = p->current_state->current_type;
-    uint_fast8_t ptype0 = p->type;
+    if (op == OP_INIT_OBJ) sh->kind = 0; else if (op == OP_INIT_ARR) sh->kind = 1;
+    const int kind0 = sh->kind;
     bool ret = false, retptr_null = true;
     bbuf raw = { 0, NULL };
     size_t ts;
@@ -419,7 +421,7 @@ static bool do_op(shadow *sh, int op, mismatch *mm, bool counting)
     /* ---------------- C12: init / reset / verify give a clean start (not compared while the error-raising callback is installed:
      * it changes what verify sees, by design) */
     if (is_reinit(op) && !CBMODE) {
-        int k = op == OP_INIT_OBJ ? 0 : op == OP_INIT_ARR ? 1 : (ptype0 == 1 ? 0 : 1);
+        int k = kind0;
         const fresh_t *f = op == OP_VERIFY ? &FR_verify[k] : &FR_init[k];
         binson_err fe = op == OP_VERIFY ? FR_verify_err[k] : FR_init_err[k];
         if (counting) vf_count(CT_REINIT_CHECKS, 1);
@@ -439,11 +441,11 @@ static bool do_op(shadow *sh, int op, mismatch *mm, bool counting)
     /* ---------------- application-level shadow stack (enables lookups) */
     bool was_fresh = sh->fresh;
     if (op != OP_GET_NAME) sh->fresh = 0;
-    if (is_reinit(op) || is_verifylike(op)) { memset(sh, 0, sizeof *sh); }
+    if (is_reinit(op) || is_verifylike(op)) { sh_clear(sh); }
     else if (op == OP_GET_RAW && !(was_fresh && (type0 == BINSON_TYPE_OBJECT || type0 == BINSON_TYPE_ARRAY))) {
         /* get_raw on anything but a container that next / a lookup has JUST returned is outside the protocol: it
          * may enter and leave whatever follows, so the application no longer knows whether it is inside an object */
-        if (sh->sp > 0 || ret) { memset(sh, 0, sizeof *sh); sh->unknown = 1; }
+        if (sh->sp > 0 || ret) { sh_clear(sh); sh->unknown = 1; }
     }
     else if (ret && e1 == BINSON_ERROR_NONE) {
         switch (op) {
@@ -452,17 +454,17 @@ static bool do_op(shadow *sh, int op, mismatch *mm, bool counting)
             bool at_root = sh->sp == 0 && used0 == 0;
             /* "enter only a container that next or a lookup has JUST returned" */
             bool typed = was_fresh && type0 == (op == OP_INTO_OBJ ? BINSON_TYPE_OBJECT : BINSON_TYPE_ARRAY);
-            bool rootkind = (ptype0 == 1) == (op == OP_INTO_OBJ);
+            bool rootkind = (kind0 == 0) == (op == OP_INTO_OBJ);
             if (sh->unknown) break;
             if (((at_root && rootkind) || (!at_root && sh->sp > 0 && typed)) && sh->sp < 9) sh->st[sh->sp++] = (int8_t) want;
-            else { memset(sh, 0, sizeof *sh); sh->unknown = 1; }
+            else { sh_clear(sh); sh->unknown = 1; }
             break;
         }
         case OP_LEAVE_OBJ: case OP_LEAVE_ARR: {
             int want = op == OP_LEAVE_OBJ ? 'O' : 'A';
             if (sh->unknown) break;
-            if (sh->sp > 0 && sh->st[sh->sp - 1] == want) { sh->sp--; sh->st[sh->sp] = 0; if (sh->sp == 0) { memset(sh, 0, sizeof *sh); sh->unknown = 1; } }
-            else { memset(sh, 0, sizeof *sh); sh->unknown = 1; }
+            if (sh->sp > 0 && sh->st[sh->sp - 1] == want) { sh->sp--; sh->st[sh->sp] = 0; if (sh->sp == 0) { sh_clear(sh); sh->unknown = 1; } }
+            else { sh_clear(sh); sh->unknown = 1; }
             break;
         }
         case OP_NEXT: case OP_NEXT_ENS_INT: case OP_NEXT_ENS_OBJ: case OP_FIELD_A: case OP_FIELD_B: case OP_FIELD_EMPTY: case OP_FIELDZ_A: case OP_FIELD_LONG: case OP_ENSURE_A_INT:
@@ -516,6 +518,7 @@ static int run_history(const uint8_t *h, int n, mismatch *mm)
     first_init();
     shadow sh;
     memset(&sh, 0, sizeof sh);
+    sh.kind = KIND0 == VK_OBJ ? 0 : 1;
     int bad = -1;
     if (!observe_state(mm, false, KIND0 == VK_OBJ ? "init_object" : "init_array")) bad = -3;
     for (int i = 0; bad == -1 && i < n; i++) {
@@ -625,6 +628,7 @@ static void explore_config(void)
     uint8_t *key = (uint8_t *) alloca(rec);
     shadow sh0;
     memset(&sh0, 0, sizeof sh0);
+    sh0.kind = KIND0 == VK_OBJ ? 0 : 1;
     memcpy(key, &snap, isz); memcpy(key + isz, &sh0, sizeof sh0);
     bool isnew;
     vf_set_insert(&SET, key, &isnew);
@@ -646,7 +650,7 @@ static void explore_config(void)
             if (op == OP_OTHERBUF) continue;        /* leaves the state as it was */
             if (!primary && is_reinit(op) && L.p->error_flags == BINSON_ERROR_NONE && !mm.prop) {
                 /* successful re-initialisation whose image equals the fresh one: explored in the primary configuration */
-                bool r_ok = op == OP_VERIFY ? FR_verify[L.p->type == 1 ? 0 : 1].ret : FR_init[(op == OP_INIT_OBJ || (op != OP_INIT_ARR && L.p->type == 1)) ? 0 : 1].ret;
+                bool r_ok = op == OP_VERIFY ? FR_verify[sh.kind].ret : FR_init[sh.kind].ret;
                 if (r_ok) continue;
             }
             L.p->cb = count_cb; L.p->cb_context = NULL;
